@@ -4,6 +4,7 @@ The driver gets the histogram NumPy produced for the same data (`np.histogram(x,
 mechanism (`otsuHist`: cumulative sums, first-maximum argmax, centre) and the specification (`specCrit` at every
 cut point, brute force), and — separately — bins the raw data itself in exact arithmetic (`histogram`, `otsuData`).
 """
+import json
 import math
 import sys
 import warnings
@@ -28,82 +29,174 @@ STRICT_FIRST_OF_RUN = False
 # bins -> first centre through 0/0) is compared with the model and the outcome recorded as a feature
 # ("outside-property:...:as-modelled" / "...:DIFFERS(recorded only)"); it is judged (impl-vs-model) only with this switch on.
 JUDGE_OUTSIDE_PROPERTY = False
+KNOWN_TOP_BINADE = "C15-top-binade-centres"
+# "attains the maximum up to rounding": a cut passes when its exact criterion is within BUDGET_SLACK times the proved
+# rounding budgets (of that cut and of the best cut) of the exact maximum
+BUDGET_SLACK = 2
 
 
 def fnum(v):
     return None if v is None or (isinstance(v, float) and math.isnan(v)) else float(v)
 
 
+def np_dtype_of(case):
+    """the NumPy dtype of the array handed to otsu: `np_dtype` when the case names one (uint8, int16, int32, bool, '>f8',
+    ...), otherwise int64 / float64"""
+    if case.get("np_dtype"):
+        return np.dtype(case["np_dtype"])
+    return np.dtype(np.int64 if case.get("dtype") == "int" else np.float64)
+
+
+def cast_val(case, v):
+    """a value of the abstract case as the array holds it (after conversion to the case's dtype), as int or float"""
+    if v is None:
+        return None
+    dt = np_dtype_of(case)
+    base = np.int64 if case.get("dtype") == "int" else np.float64
+    w = np.array([v], dtype=base).astype(dt)[0]
+    return int(w) if dt.kind in "iub" else float(w)
+
+
+def tiles_of(case):
+    """a pattern encoded case as [[pattern, repetitions], ...]: `tiles` as given, `rle` = patterns of length one"""
+    if "tiles" in case:
+        return [([cast_val(case, v) for v in p], int(r)) for p, r in case["tiles"]]
+    return [([cast_val(case, v)], int(c)) for v, c in case["rle"]]
+
+
+def encoded(case):
+    return "rle" in case or "tiles" in case
+
+
+def runs_of(case):
+    """the (value, count) pairs of a pattern encoded case without its NaNs (what `x[~np.isnan(x)]` leaves, as a
+    multiset): element i of a pattern repeated r times stands for r equal elements"""
+    return [(v, r) for p, r in tiles_of(case) for v in p if v is not None and r > 0]
+
+
 def m_n(case, clean):
-    """the values the binning model was given: the runs of a run-length encoded case, every value otherwise"""
-    return [v for v, _ in case["rle"] if v is not None] if "rle" in case else range(int(clean.size))
+    """the values the binning model was given: the runs of a pattern encoded case, every value otherwise"""
+    return runs_of(case) if encoded(case) else range(int(clean.size))
 
 
 def np_next(v, d):
     return float(np.nextafter(v, math.inf if d > 0 else -math.inf))
 
 
-def run_otsu(x, **kw):
+def run_otsu(x, *args, **kw):
     from pewlib.process.threshold import otsu
 
     with warnings.catch_warnings():
         warnings.simplefilter("ignore")
         with np.errstate(all="ignore"):
             try:
-                return float(otsu(x, **kw))
+                return float(otsu(x, *args, **kw))
             except Exception as e:
                 return {"raises": type(e).__name__, "msg": str(e)[:200]}
 
 
 def expand(case):
-    """the flat value sequence of a case: explicit `data`, or run-length encoded `rle` = [[value, count], ...]
-    (large arrays: the abstract case stays a few runs long; NaN = null as in `data`)"""
-    if "rle" in case:
-        vals = [math.nan if v is None else v for v, _ in case["rle"]]
-        cnts = [int(c) for _, c in case["rle"]]
-        if case.get("dtype") == "int":
-            return np.repeat(np.array(vals, dtype=np.int64), cnts)
-        return np.repeat(np.array(vals, dtype=np.float64), cnts)
+    """the flat value sequence of a case (float64, or int64 for integer-valued cases): explicit `data`, or pattern
+    encoded: `tiles` = [[pattern, repetitions], ...] (each pattern written out `repetitions` times, one tile after the
+    other; `rle` = [[value, count], ...] is the special case of patterns of length one).  Large arrays: the abstract
+    case stays a few hundred numbers long; NaN = null as in `data`"""
+    dt = np.int64 if case.get("dtype") == "int" else np.float64
+    if encoded(case):
+        tiles = [([v for v in p], int(r)) for p, r in (case["tiles"] if "tiles" in case else [[[v], c] for v, c in case["rle"]])]
+        parts = [np.tile(np.array([math.nan if v is None else v for v in p], dtype=dt), r) for p, r in tiles]
+        return np.concatenate(parts) if parts else np.zeros(0, dtype=dt)
     if case.get("dtype") == "int":
         return np.array(case["data"], dtype=np.int64)
     return np.array([math.nan if v is None else v for v in case["data"]], dtype=np.float64)
 
 
+LAYOUTS = ["C", "F", "strided", "reversed", "transposed", "readonly", "offset"]
+
+
+def lay_out(a, layout):
+    """the same array (same shape, same element at every index) in another memory layout: Fortran order, every
+    second element of a larger buffer along the last axis, a negative stride along the first axis, a transposed view of
+    the transposed copy, a read-only array, a view that starts inside a larger buffer"""
+    if layout in (None, "C"):
+        return a
+    if layout == "F":
+        return np.asfortranarray(a)
+    if layout == "strided":
+        big = np.empty(a.shape[:-1] + (2 * a.shape[-1],), dtype=a.dtype)
+        big[..., 1::2] = a[..., ::-1]         # what lies between the elements: the same values in another order
+        big[..., ::2] = a
+        return big[..., ::2]
+    if layout == "reversed":
+        return a[::-1].copy()[::-1]
+    if layout == "transposed":
+        return a.T.copy().T
+    if layout == "readonly":
+        a = a.copy()
+        a.setflags(write=False)
+        return a
+    if layout == "offset":
+        big = np.empty(a.size + 3, dtype=a.dtype)
+        big[:3] = a.ravel()[:1]
+        big[3:] = a.ravel()
+        return big[3:].reshape(a.shape)
+    raise ValueError("unknown layout " + str(layout))
+
+
 def build(case):
-    if "rle" in case:
-        return expand(case).reshape(case["shape"])
-    if case.get("dtype") == "int":
-        return np.array(case["data"], dtype=np.int64).reshape(case["shape"])
-    return np.array([math.nan if v is None else v for v in case["data"]], dtype=np.float64).reshape(case["shape"])
+    a = expand(case)
+    dt = np_dtype_of(case)
+    if a.dtype != dt:
+        a = a.astype(dt)
+    return lay_out(a.reshape(case["shape"]), case.get("layout"))
 
 
 class C15(Prop):
     id = "C15"
     anchored = ["src/pewlib/process/threshold.py"]
-    cases = {"quick": 140, "thorough": 2400}
-    rule = ("arrays of 2..1500 (thorough: ..6000) values in 1-3 dimensions: two values only, sizes 2 and 3, uni-, bi- and "
+    cases = {"quick": 125, "thorough": 2400}
+    rule = ("arrays of 2..1500 (thorough: ..6000) values in 1-5 dimensions: two values only, sizes 2 and 3, uni-, bi- and "
             "multi-modal normal mixtures, heavy tails (lognormal, Cauchy-like), integer-valued incl. int64 arrays and "
             "values exactly on bin edges (0..256), gapped clusters with empty bins, large offsets, negative values, "
-            "NaNs at 0-60 % incl. first/last position; 12 %: exactly mirror-symmetric data (2..6 value pairs, 4..200 "
+            "NaNs at 0-60 % incl. first/last position; 11 %: exactly mirror-symmetric data (2..6 value pairs, 4..200 "
             "elements, small integers / dyadic fractions, centre- or edge-heavy: tied maxima in two separate runs of cuts); "
-            "6 %: two populations in the last (first) two bins plus a far outlier of mass 1..3, 2^10..2^20 elements, "
-            "run-length encoded (beyond ~2^18 elements the optimum is the last (first) cut; two such 2^20-element cases "
-            "are always run); every case is also run with remove_nan and scaled by a power of "
-            "two. non-trivial = every case with >= 2 distinct values; distinct by canonical case hash")
+            "5 %: two populations in the last (first) two bins plus a far outlier of mass 1..3, 2^10..2^20 elements, "
+            "run-length encoded; 2.5 % (+ 4 always): MORE THAN 2^21 ELEMENTS (thorough: up to 2^23 + 7; 1500 x 1500, "
+            "1449 x 1449, 2^21 + 1, 1774 x 1774, 128 x 128 x 129, ...), pattern encoded (tiles = pattern x repetitions): the "
+            "value depends on the flat index - alternating by parity, period 2..16 / 840 with the extreme values at one "
+            "residue only, 1..25 bright pixels at indices of one residue class, a tiled 255..1024-value bimodal sample, "
+            "sorted blocks with the extremes in a short tail, NaN runs; 6 %: EXTREME SCALES, ordinary data times m * 2^K "
+            "(1 <= m < 2, |K| = 200..1070, largest magnitude below 2^1023, subnormal values); 1 % (+ 2 always): the top "
+            "binade (known finding); 5 %: exactly two or three distinct values with populations up to 1 : 10^6, two values "
+            "1..10^6 float steps apart, boolean images; then for every case: a narrower or byte-swapped dtype that holds "
+            "the values (uint8 .. uint64, int8 .. int32, '>i4', '>f8', bool), unit axes / a split last axis (4-5 "
+            "dimensions, 12 %), a memory layout (30 %: Fortran, strided, negative stride, transposed, read-only, offset "
+            "view), remove_nan passed positionally (30 %).  Every case: otsu(x without NaN), otsu(x, remove_nan), the same "
+            "values in a fresh array (second call), that array multiplied by a power of two IN PLACE and handed over "
+            "again.  non-trivial = every case with >= 2 distinct values; distinct by canonical case hash")
     trusted = [
         "np.histogram(x, bins=256) (uniform bins between min and max, last bin closed) and np.argmax (first maximum) "
         "are external; the histogram NumPy returned is the input of the criterion check, and is itself compared with "
-        "the exact binning model when the array has at most 6000 elements (larger: `binning-model-skipped:large`) and no "
-        "value lies within 1e-9 bin widths (plus 8 ulps of the larger end point) of an edge",
-        "multiplying float data by a power of two is exact (no overflow/underflow in the generated range), which is "
-        "where `scale_invariant` (exact arithmetic, every c > 0) transfers to the float computation bit for bit",
+        "the binary64 binning model (counts and edge bits) for every array whose values or pattern positions number at "
+        "most 6000",
+        "IEEE-754 binary64 arithmetic is correctly rounded: every operation returns the double nearest to the exact "
+        "result, so |fl(z) - z| <= 2^-53 |z| + 2^-1075 - the hypothesis of `float_criterion_within_budget`; Lean's `Float` "
+        "operations (run natively by the driver) are those operations; np.ldexp by the frexp exponent is exact "
+        "(evaluated per case: `scaled_centres_exact`)",
+        "multiplying float data by a power of two is exact and NumPy's edges of the scaled data are the scaled edges "
+        "(evaluated per case; otherwise the scaling clause is not judged)",
     ]
     assumptions = [
         "'attains the maximum up to rounding': the cut of the returned centre must reach the exact maximum of the "
-        "criterion within relative 1e-9 + 2048*eps*max|edge|/|mu1-mu2| (accumulated rounding of the cumulative means)",
+        "criterion within BUDGET_SLACK = 2 times the proved rounding budgets of the two cuts (budget of a cut = bound on "
+        "|binary64 criterion - exact criterion| for the code's operation sequence, `critListB` with u = 2^-53, "
+        "eta = 2^-1075; about 5e-14 of the maximum for ordinary data, offset/spread * 5e-14 * ... for data on an offset)",
         "arrays whose 257 float edges are not strictly increasing, or for which np.histogram refuses 256 bins "
-        "('Too many bins for data range', e.g. [1+2eps, 1+eps]: otsu raises ValueError there), have a range below "
-        "float resolution and are undetermined",
+        "('Too many bins for data range', e.g. [1+2eps, 1+eps], subnormal data with a range below 256 steps, ranges "
+        "beyond the float maximum: otsu raises ValueError there), are undetermined",
+        "the power-of-two clause is judged when np.histogram's edges of the scaled data are the scaled edges and every "
+        "bin centre before and after scaling is a double (midpoints of subnormal edges may not be)",
+        "data whose larger end is >= 2^1023 in magnitude: pewlib's bin centres overflow (known finding "
+        "C15-top-binade-centres)",
     ]
 
     # ------------------------------------------------------------------ generation
@@ -154,7 +247,10 @@ class C15(Prop):
             gap = 10.0 ** rng.uniform(1, 5)
             v = [rng.uniform(0, 1) + (gap if rng.random() < rng.choice([0.5, 0.1]) else 0) for _ in range(n)]
         elif kind == "offset":
-            off = 10.0 ** rng.choice([4, 6, 8])
+            # a constant offset 10^4 .. 2^50 times the spread (beyond about 2^44 the 256 bins fall below the float
+            # spacing and np.histogram refuses; just below, the rounding budget of the criterion approaches the criterion)
+            off = rng.choice([1e4, 1e6, 1e8, 2.0 ** 20, 2.0 ** 27, 2.0 ** 30, 2.0 ** 36, 2.0 ** 40, 2.0 ** 44, 2.0 ** 47, 2.0 ** 50])
+            off *= rng.choice([1, 1, -1])
             v = [off + (rng.gauss(0, 1) if rng.random() < 0.5 else rng.gauss(6, 1)) for _ in range(n)]
         elif kind == "negative":
             v = [-abs(rng.gauss(50, 30)) - (200 if rng.random() < 0.4 else 0) for _ in range(n)]
@@ -275,6 +371,106 @@ class C15(Prop):
         k = rng.choice([1, 2, 3, 10, -1, -7, 20, -20, -60, 100]) if dtype == "float" else rng.choice([1, 2, 5])
         return {"kind": "extreme-cut-" + side, "dtype": dtype, "shape": shape, "rle": rle, "scale_exp": k}
 
+    # shapes with more than 2^21 elements (1-D, 2-D, 3-D; just above 2^21, 3*2^20, 2^22; 1500 x 1500)
+    LARGE = [[1500, 1500], [1449, 1449], [2 ** 21 + 1], [2 ** 21 + 2], [2048, 1025], [1774, 1774], [128, 128, 129],
+             [3 * 2 ** 20 + 5], [2, 1100000]]
+    LARGER = [[2048, 2048], [2 ** 22 + 1], [2049, 2049], [2047, 2049], [5 * 2 ** 20 + 3], [6 * 2 ** 20 + 1], [7 * 2 ** 20 + 2], [2896, 2897],
+              [2 ** 23], [2 ** 23 + 7], [256, 256, 128], [3000, 2500]]
+
+    def gen_large(self, rng, tier):
+        """more than 2^21 elements (thorough: up to 2^23 + 7), pattern encoded: the abstract case is a list of tiles
+        (pattern, repetitions).  The value of an element depends on its flat index: alternating by parity, periodic
+        with period 2..16 / 840 with the largest (smallest) value at one residue only, a few bright pixels at flat
+        indices of one residue class on a flat background, a 255..1024-value bimodal sample tiled, or large sorted
+        blocks with the extreme values in a short tail.  Any computation that does not look at every element (every
+        k-th element, a leading block, whole blocks only) sees another minimum, maximum or histogram."""
+        shape = list(rng.choice(self.LARGE + (self.LARGER if tier == "thorough" else [])))
+        n = 1
+        for d in shape:
+            n *= d
+        kind = rng.choice(["parity", "periodic", "periodic", "sparse", "sparse", "bimodal-tile", "bimodal-tile", "blocks"])
+        dtype = "int" if rng.random() < 0.2 else "float"
+        if dtype == "int":
+            lo, span = rng.choice([0, -1024, 7, 1000]), rng.choice([255, 1024, 4095, 65535])
+            val = lambda q: int(round(lo + span * q))
+        else:
+            lo, span = rng.choice([(0.0, 1.0), (0.0, 255.0), (-1.0, 2.0), (3.0, 10.0), (1000.0, 64.0), (-0.7, 1.9), (5e-7, 3e-6)])
+            val = lambda q: float(lo + span * q)
+
+        def fill(pattern, total):
+            """tiles that write `pattern` again and again up to exactly `total` elements"""
+            p = len(pattern)
+            ts = [[pattern, total // p]] if total >= p else []
+            if total % p:
+                ts.append([pattern[:total % p], 1])
+            return ts
+        if kind == "parity":
+            a, b = val(0.0), val(rng.choice([1.0, 0.5, 0.01]))
+            pat = [a, b] if rng.random() < 0.6 else [b, a]
+            tiles = fill(pat, n)
+        elif kind == "periodic":
+            p = rng.choice([2, 3, 3, 4, 5, 6, 7, 8, 12, 16, 840])
+            dark = [val(rng.uniform(0.02, 0.3)) for _ in range(3)]
+            bright = [val(rng.uniform(0.6, 0.95)) for _ in range(3)]
+            frac = rng.choice([0.5, 0.3, 0.1])
+            pat = [rng.choice(bright) if rng.random() < frac else rng.choice(dark) for _ in range(p)]
+            r = rng.randrange(1, p)
+            pat[r] = val(1.0)                               # the maximum: only at flat indices = r (mod p), r != 0
+            r2 = rng.choice([i for i in range(p) if i != r])
+            pat[r2] = val(0.0)                              # the minimum: only at another residue (may be 0)
+            tiles = fill(pat, n)
+        elif kind == "sparse":
+            a, b = val(0.0), val(1.0)
+            if rng.random() < 0.3:
+                a, b = b, a                                 # dark pixels on a bright background
+            k = rng.choice([1, 1, 2, 5, 25])
+            p = rng.choice([2, 2, 2, 3, 4, 6, 8, 840])
+            r = rng.randrange(1, p) if rng.random() < 0.85 else 0
+            where = rng.choice(["anywhere", "anywhere", "last", "first"])
+            m = (n - 1 - r) // p                            # residue class: indices r, r + p, ..., r + m p
+            js = {m} if where == "last" else {0} if where == "first" else set()
+            while len(js) < min(k, m + 1):
+                js.add(rng.randint(0, m))
+            tiles, at = [], 0
+            for j in sorted(js):
+                i = r + j * p
+                if i > at:
+                    tiles.append([[a], i - at])
+                tiles.append([[b], 1])
+                at = i + 1
+            if n > at:
+                tiles.append([[a], n - at])
+        elif kind == "bimodal-tile":
+            L = rng.choice([255, 256, 840, 1000, 1024])
+            m2, s1, s2, pp = rng.uniform(4, 12), rng.uniform(0.3, 1.5), rng.uniform(0.3, 1.5), rng.choice([0.5, 0.3, 0.8, 0.05])
+            raw = [rng.gauss(0, s1) if rng.random() < pp else rng.gauss(m2, s2) for _ in range(L)]
+            a0, b0 = min(raw), max(raw)
+            pat = [val((v - a0) / (b0 - a0)) for v in raw]
+            tiles = fill(pat, n)
+        else:  # blocks: a few levels in long sorted runs, the extreme values in a short tail (or head)
+            levels = sorted(rng.uniform(0.05, 0.95) for _ in range(rng.choice([1, 2, 3, 5])))
+            tail = rng.choice([1, 3, 1000, 65535, n % 65536 or 7])
+            body = n - 2 * tail
+            cuts = sorted(rng.sample(range(1, body), len(levels) - 1))
+            runs = [[[val(q)], c] for q, c in zip(levels, [y - x for x, y in zip([0] + cuts, cuts + [body])])]
+            ends = [[[val(0.0)], tail], [[val(1.0)], tail]]
+            tiles = runs + ends if rng.random() < 0.6 else ends + runs
+        if dtype == "float" and rng.random() < 0.35:
+            # NaNs: a run of odd or even length in front (after removal every flat index has moved), inside, or at the end
+            c = rng.choice([1, 1, 2, 3, 1001, n // 100])
+            at = rng.choice([0, 0, len(tiles) // 2, len(tiles)])
+            # keep the element count: take the NaNs out of the longest tile
+            j = max(range(len(tiles)), key=lambda i: len(tiles[i][0]) * tiles[i][1])
+            pj, rj = tiles[j]
+            take = -(-c // len(pj))
+            if rj > take + 1:
+                tiles[j] = [pj, rj - take]
+                c = take * len(pj)
+                tiles.insert(at, [[None], c])
+        tiles = [[list(pp_), int(r_)] for pp_, r_ in tiles if r_ > 0 and pp_]
+        k = rng.choice([1, 2, 3, 10, -1, -7, 20, -20, -60, 100]) if dtype == "float" else rng.choice([1, 2, 5])
+        return {"kind": "large-" + kind, "dtype": dtype, "shape": shape, "tiles": tiles, "scale_exp": k}
+
     def gen_stub(self, rng):
         """a hand-made histogram (handed to otsu through a stubbed np.histogram): empty bins at one or both ends, so that
         a class of some cuts is empty and the float mechanism produces 0/0"""
@@ -296,10 +492,147 @@ class C15(Prop):
         lo = rng.choice([0.0, -4.0, 1.0, 100.0])
         return {"kind": "stub-histogram", "hist": hist, "lo": lo, "hi": lo + rng.choice([1.0, 8.0, 256.0, 0.5])}
 
+    def gen_few(self, rng, tier):
+        """images with exactly two or three distinct values: populations as unbalanced as 1 : 10^6 (run-length encoded),
+        values a few hundred float steps apart (256 steps is the least np.histogram accepts; below: it raises and the
+        case is undetermined), boolean images"""
+        kind = rng.choice(["two-unbalanced", "two-unbalanced", "two-adjacent", "two-adjacent", "three-valued", "three-valued", "bool"])
+        if kind == "bool":
+            n = rng.choice([2, 3, 10, 1000])
+            v = [int(rng.random() < rng.choice([0.5, 0.1, 0.9])) for _ in range(n)]
+            v[rng.randrange(n)] = 1
+            v[rng.choice([i for i in range(n) if v[i] == 0] or [0])] = 0
+            if sum(v) == n:
+                v[0] = 0
+            return {"kind": "bool", "dtype": "int", "np_dtype": "bool", "shape": [n], "data": v, "scale_exp": rng.choice([1, 3])}
+        a = rng.choice([0.0, 1.0, -3.5, 1e6, rng.uniform(-100, 100), 2.0 ** -20])
+        if kind == "two-adjacent":
+            steps = rng.choice([256, 256, 257, 300, 511, 512, 1000, 4096, 10 ** 6, 255, 2, 1])
+            b = a
+            if steps <= 4096:
+                for _ in range(steps):
+                    b = np_next(b, 1)
+            else:
+                b = a + steps * (np_next(abs(a) or 1.0, 1) - (abs(a) or 1.0))
+            vals = [a, b]
+        elif kind == "two-unbalanced":
+            vals = [a, a + rng.choice([1.0, 0.5, 255.0, 10.0 ** rng.uniform(-3, 6)])]
+        else:
+            d1, d2 = rng.choice([(1.0, 1.0), (1.0, 9.0), (9.0, 1.0), (1.0, 1000.0), (1e-3, 1.0), (0.5, 0.25)])
+            vals = [a, a + d1, a + d1 + d2]
+        big = rng.choice([10 ** 3, 10 ** 5, 10 ** 6])
+        cnts = [rng.choice([1, 1, 2, 7, big, big // 2]) for _ in vals]
+        if max(cnts) < 100:
+            cnts[rng.randrange(len(cnts))] = big
+        rle = [[v, c] for v, c in zip(vals, cnts)]
+        rng.shuffle(rle)
+        if rng.random() < 0.3:       # a population split in two runs: the rare value in the middle of the common one
+            j = max(range(len(rle)), key=lambda i: rle[i][1])
+            v, c = rle[j]
+            if c > 3:
+                rest = [r_ for i, r_ in enumerate(rle) if i != j]
+                cut = rng.randint(1, c - 1)
+                rle = [[v, cut]] + rest + [[v, c - cut]]
+        if rng.random() < 0.25:
+            rle.insert(rng.choice([0, len(rle)]), [None, rng.choice([1, 2, 1000])])
+        n = sum(c for _, c in rle)
+        return {"kind": kind, "dtype": "float", "shape": [n], "rle": rle,
+                "scale_exp": rng.choice([1, 2, 3, 10, -1, -7, 20, -20, -60, 100])}
+
+    def gen_extreme_scale(self, rng, tier):
+        """ordinary data multiplied by m * 2^K, 1 <= m < 2 (not a power of two in general), K up to +-1070: magnitudes
+        whose squares overflow or underflow, down to subnormal values; the largest magnitude stays below 2^1023 (top
+        binade: see `gen_top_binade`).  The scaled run goes back towards ordinary magnitudes, or further out"""
+        while True:
+            kind, dtype, v = self.gen_values(rng, tier)
+            if dtype == "float" and kind not in ("tiny-range",) and len(v) <= 1500:
+                break
+        sgn = rng.choice([1, 1, -1, -1, -1])
+        K = rng.choice([200, 400, 500, 505, 508, 511, 512, 520, 538, 539, 540, 600, 900, 1000, 1010, 1020] +
+                       ([1040, 1060, 1070] if sgn < 0 else []))
+        m = rng.choice([1.0, rng.uniform(1, 2), 1.5])
+        while True:
+            try:
+                data = [math.ldexp(x * m, sgn * K) for x in v]
+            except OverflowError:
+                data = [math.inf]
+            if all(math.isfinite(x) for x in data) and max(abs(x) for x in data) < 2.0 ** 1023:
+                break
+            K -= 7
+        pn = rng.choice([0, 0, 0, 0.1])
+        if pn:
+            data = [None if rng.random() < pn else x for x in data]
+        k = rng.choice([1, -1, 3, -sgn * K, -sgn * (K - 100), -sgn * 2 * K])
+        while True:      # the scaled data stays finite and below the top binade
+            fin = [x for x in data if x is not None]
+            try:
+                sc = [math.ldexp(x, k) for x in fin]
+            except OverflowError:
+                sc = [math.inf]
+            if all(abs(x) < 2.0 ** 1023 for x in sc):
+                break
+            k = k // 2 if abs(k) > 1 else -1
+        return {"kind": "extreme-scale-" + kind, "dtype": "float", "shape": [len(data)], "data": data, "scale_exp": k}
+
+    def gen_top_binade(self, rng):
+        """finite data whose larger end is at least 2^1023 in magnitude (known finding C15-top-binade-centres: the sum
+        of two neighbouring edges overflows in pewlib's bin centres)"""
+        base = rng.choice([[0.0, 1.0, 3.0], [-3.0, -1.0, 0.0], [0.5, 1.0, 1.0, 1.75], [0.0, 0.25, 0.5, 0.5, 1.9],
+                           [-1.9, -1.0, -0.5, -0.5, 0.0]])
+        top = max(abs(x) for x in base)
+        e = 1023 - int(math.floor(math.log2(top)))
+        data = [math.ldexp(x, e) for x in base]
+        rng.shuffle(data)
+        return {"kind": "top-binade", "dtype": "float", "shape": [len(data)], "data": data,
+                "scale_exp": rng.choice([-1, -3, -600, -1022])}
+
+    def decorate(self, case, rng):
+        """the same values as another array: a narrower or byte-swapped dtype that holds them exactly, another memory
+        layout, more dimensions; remove_nan passed positionally"""
+        if case.get("kind") == "stub-histogram":
+            return case
+        vals = [v for v in (case["data"] if "data" in case else [w for p, _ in
+                (case["tiles"] if "tiles" in case else [[[v], c] for v, c in case["rle"]]) for w in p]) if v is not None]
+        if "np_dtype" not in case and vals:
+            if case["dtype"] == "int" and rng.random() < 0.6:
+                lo, hi = min(vals), max(vals)
+                fits = [d for d, (a, b) in (("uint8", (0, 255)), ("int8", (-128, 127)), ("uint16", (0, 65535)),
+                                            ("int16", (-32768, 32767)), ("int32", (-2 ** 31, 2 ** 31 - 1)),
+                                            ("uint32", (0, 2 ** 32 - 1)), (">i4", (-2 ** 31, 2 ** 31 - 1)),
+                                            ("uint64", (0, 2 ** 53))) if a <= lo and hi <= b]
+                if fits:
+                    case["np_dtype"] = rng.choice(fits)
+            elif case["dtype"] == "float" and rng.random() < 0.06:
+                case["np_dtype"] = ">f8"
+        shape = list(case["shape"])
+        if rng.random() < 0.12:
+            # four or five dimensions: unit axes added, and the last axis split when it is even
+            if shape[-1] % 2 == 0 and shape[-1] >= 4 and rng.random() < 0.6:
+                shape = shape[:-1] + [shape[-1] // 2, 2]
+            while len(shape) < rng.choice([4, 5]):
+                shape.insert(rng.randint(0, len(shape)), 1)
+            case["shape"] = shape
+        if rng.random() < 0.3:
+            case["layout"] = rng.choice([l for l in LAYOUTS if l != "C"])
+        if rng.random() < 0.3:
+            case["positional"] = True
+        return case
+
     def generate(self, rng, tier):
+        return self.decorate(self.generate_values(rng, tier), rng)
+
+    def generate_values(self, rng, tier):
         r = rng.random()
-        if r < 0.06:
+        if r < 0.05:
             return self.gen_extreme(rng, tier)
+        if r < 0.075:
+            return self.gen_large(rng, tier)
+        if r < 0.135:
+            return self.gen_extreme_scale(rng, tier)
+        if r < 0.185:
+            return self.gen_few(rng, tier)
+        if r < 0.195:
+            return self.gen_top_binade(rng)
         if r > 0.96:
             return self.gen_stub(rng)
         if r > 0.94:   # constant arrays (outside the property; the model's NaN path is recorded)
@@ -309,7 +642,7 @@ class C15(Prop):
             if rng.random() < 0.4:
                 v.insert(rng.randint(0, n), None)
             return {"kind": "constant", "dtype": "float", "shape": [len(v)], "data": v, "scale_exp": 1}
-        if r < 0.18:
+        if r < 0.31:
             kind, dtype, v = self.gen_symmetric(rng)
         else:
             kind, dtype, v = self.gen_values(rng, tier)
@@ -375,59 +708,174 @@ class C15(Prop):
                "rle": [[0.0, 1], [254.5 / 256, h - 1], [1.0, h]], "scale_exp": 1}
         yield {"kind": "extreme-cut-first", "dtype": "float", "shape": [2 ** 20 + 1],
                "rle": [[3.5, h - 7], [2.0, h + 7], [258.0, 1]], "scale_exp": -3}
+        # magnitudes whose squares overflow / underflow (the criterion is formed from rescaled centres), subnormal values
+        yield {"kind": "extreme-scale", "dtype": "float", "shape": [3], "data": [0.0, math.ldexp(1.0, 511), math.ldexp(3.0, 511)], "scale_exp": -511}
+        yield {"kind": "extreme-scale", "dtype": "float", "shape": [3], "data": [0.0, math.ldexp(1.0, -539), math.ldexp(3.0, -539)], "scale_exp": 539}
+        yield {"kind": "extreme-scale", "dtype": "float", "shape": [2, 3],
+               "data": [math.ldexp(v, 1020) for v in (-1.75, 1.5, 1.25, -1.0, 1.9, 1.6)], "scale_exp": -2040}
+        yield {"kind": "extreme-scale", "dtype": "float", "shape": [6],
+               "data": [math.ldexp(v, -1066) for v in (0.0, 1.0, 3.0, 3.0, 2.5, 0.25)], "scale_exp": 1066}
+        yield {"kind": "extreme-scale", "dtype": "float", "shape": [5],
+               "data": [v * 1.7e150 for v in (0.3, 1.1, 3.9, 4.0, 0.31)], "scale_exp": -1000}
+        yield {"kind": "extreme-scale", "dtype": "float", "shape": [4],
+               "data": [math.ldexp(-3.0, 600), math.ldexp(-2.0, 600), 0.0, math.ldexp(-2.0, 600)], "scale_exp": -600}
+        # the top binade: finite data, the sum of two neighbouring edges overflows (known finding C15-top-binade-centres)
+        yield {"kind": "top-binade", "dtype": "float", "shape": [3], "data": [0.0, math.ldexp(1.0, 1022), math.ldexp(3.0, 1022)], "scale_exp": -1022}
+        yield {"kind": "top-binade", "dtype": "float", "shape": [3], "data": [math.ldexp(-3.0, 1022), math.ldexp(-1.0, 1022), 0.0], "scale_exp": -3}
+        # dtypes and memory layouts
+        yield {"kind": "int255", "dtype": "int", "np_dtype": "uint8", "shape": [4, 4], "layout": "F",
+               "data": [0, 10, 12, 200, 255, 9, 11, 201, 13, 199, 198, 12, 10, 9, 202, 8], "scale_exp": 1}
+        yield {"kind": "poisson", "dtype": "int", "np_dtype": "int16", "shape": [2, 2, 2], "layout": "strided",
+               "data": [-300, -290, 5, 7, 6, -295, 1000, 4], "scale_exp": 2}
+        yield {"kind": "bool", "dtype": "int", "np_dtype": "bool", "shape": [5], "data": [1, 0, 1, 1, 0], "scale_exp": 1}
+        yield {"kind": "bi", "dtype": "float", "np_dtype": ">f8", "shape": [1, 3, 1, 2], "layout": "reversed", "positional": True,
+               "data": [0.5, None, 7.25, 0.75, 8.0, 7.5], "scale_exp": -3}
+        yield {"kind": "bi", "dtype": "float", "shape": [3, 2], "layout": "readonly",
+               "data": [0.5, 1.0, 7.25, 0.75, 8.0, None], "scale_exp": 5}
+        yield {"kind": "bi", "dtype": "float", "shape": [2, 3], "layout": "transposed", "data": [0.5, 1.0, 7.25, 0.75, 8.0, 7.0], "scale_exp": 1}
+        yield {"kind": "bi", "dtype": "float", "shape": [6], "layout": "offset", "data": [0.5, 1.0, 7.25, 0.75, 8.0, 7.0], "scale_exp": 1}
+        # two values 1 : 10^6, the rare one in the middle; two values 256 float steps apart; three values
+        yield {"kind": "two-unbalanced", "dtype": "float", "shape": [10 ** 6 + 1], "rle": [[2.5, 400000], [7.0, 1], [2.5, 600000]], "scale_exp": 1}
+        yield {"kind": "two-adjacent", "dtype": "float", "shape": [10 ** 5 + 2],
+               "rle": [[1.0 + 256 * EPS, 1], [1.0, 10 ** 5], [1.0 + 256 * EPS, 1]], "scale_exp": -1}
+        yield {"kind": "three-valued", "dtype": "float", "shape": [1003], "rle": [[0.0, 1], [1.0, 1000], [1000.0, 2]], "scale_exp": 2}
+        # more than 2^21 elements, value by flat index (pattern encoded).  1500 x 1500: flat background, five bright
+        # pixels at odd flat indices (two-valued)
+        pos, tiles, at = [101, 70001, 1234567, 2000001, 2249999], [], 0
+        for i in pos:
+            tiles += [[[0.0], i - at], [[1.0], 1]]
+            at = i + 1
+        yield {"kind": "large-sparse", "dtype": "float", "shape": [1500, 1500], "tiles": tiles, "scale_exp": 1}
+        # 2^21 + 2 elements alternating by index parity (two-valued, balanced)
+        yield {"kind": "large-parity", "dtype": "float", "shape": [2 ** 21 + 2], "tiles": [[[3.0, 7.5], 2 ** 20 + 1]], "scale_exp": 3}
+        # 1774 x 1774 (> 3 * 2^20), period 3: the maximum at indices = 1 (mod 3), the minimum at indices = 2 (mod 3)
+        yield {"kind": "large-periodic", "dtype": "int", "shape": [1774, 1774],
+               "tiles": [[[40, 255, 0], 1774 * 1774 // 3], [[40], 1]], "scale_exp": 1}
+        # 2 800 001 elements, period 4 with a NaN at indices = 0 (mod 4): removal requested, 2 100 001 numbers remain
+        yield {"kind": "large-periodic", "dtype": "float", "shape": [2800001],
+               "tiles": [[[None, 0.25, 10.0, 0.5], 700000], [[9.5], 1]], "scale_exp": -2}
 
     # ------------------------------------------------------------------ evaluation
     def evaluate(self, case, ctx):
         if case["kind"] == "stub-histogram":
             return self.eval_stub(case, ctx)
         x = build(case)
-        isint = case.get("dtype") == "int"
+        isfloat = x.dtype.kind == "f"
+        isint = not isfloat
         flat = x.ravel()
-        clean = flat if isint else flat[~np.isnan(flat)]
+        clean = flat[~np.isnan(flat)] if isfloat else flat
         has_nan = clean.size != flat.size
-        feats = {f"kind:{case['kind']}", f"ndim{len(case['shape'])}", "dtype:" + ("int64" if isint else "float64"),
+        feats = {f"kind:{case['kind']}", f"ndim{len(case['shape'])}", "dtype:" + x.dtype.str.lstrip("<|="),
                  "size:" + ("2" if clean.size == 2 else "3" if clean.size == 3 else "<=50" if clean.size <= 50 else ">50")}
-        distinct = np.unique(clean)
+        if case.get("layout") not in (None, "C"):
+            feats.add("layout:" + case["layout"])
+        # the distinct values: of a pattern encoded case they are read off the patterns (its value sequence is large)
+        distinct = (np.array(sorted({float(v) for v, _ in runs_of(case)}), dtype=np.float64) if encoded(case)
+                    else np.unique(clean).astype(np.float64))
         if distinct.size < 2:
             return self.eval_outside(case, x, flat, clean, ctx)
         lo, hi = float(clean.min()), float(clean.max())
+        if clean.size > 2 ** 21:
+            feats.add("size:>2^21" if clean.size <= 2 ** 22 else "size:>2^22")
+            feats.add("large:" + ("%d-D" % len(case["shape"])))
+            # what a computation that looks at every s-th element only would lose
+            for s_ in (2, 3, 4, 8):
+                sub = clean[::s_]
+                if float(sub.min()) != lo or float(sub.max()) != hi:
+                    feats.add("large:every-%d-th-element-misses-min-or-max" % s_)
         hist = edges = None
-        try:
-            hist, edges = np.histogram(clean, bins=BINS)
-        except ValueError:  # "Too many bins for data range": 256 finite-sized float bins do not exist
-            pass
+        with np.errstate(all="ignore"), warnings.catch_warnings():
+            warnings.simplefilter("ignore")
+            try:
+                hist, edges = np.histogram(clean, bins=BINS)
+            except ValueError:  # "Too many bins for data range": 256 finite-sized float bins do not exist
+                pass
         # --- np.histogram against its double-precision model (every value, no tolerance)
         binning_ok, bfeats, drep = self.check_binning(case, flat, clean, isint, hist, edges, ctx)
         if hist is None:
             return outcome({}, {}, {}, undetermined=binning_ok, model_ok=binning_ok,
                            features=feats | bfeats | {"range-below-float-resolution(histogram raises)"},
                            note="range below float resolution")
+        big_mag = max(abs(lo), abs(hi))
+        if big_mag >= 2.0 ** 500 or big_mag <= 2.0 ** -500:
+            feats.add("extreme-scale:" + ("max|x|>=2^1023" if big_mag >= 2.0 ** 1023 else "max|x|>=2^500" if big_mag >= 1
+                                          else "subnormal-values" if big_mag < 2.0 ** -1022 else "max|x|<=2^-500"))
         # --- the implementation at its observation point (and the two relational runs)
         arg = x if not has_nan else clean.reshape(-1)
         t = run_otsu(arg)                       # data without NaNs
-        t_rm = run_otsu(x, remove_nan=True)     # data as given, NaN removal requested
+        # NaN removal requested on the data as given (positionally or by keyword)
+        t_rm = run_otsu(x, True) if case.get("positional") else run_otsu(x, remove_nan=True)
         k = case["scale_exp"]
-        scaled = (arg * (2 ** k)) if (isint and k >= 0) else (arg * (2.0 ** k))
+        # a history on one array object: the same image in a fresh array (second call), then that array multiplied by
+        # 2^k IN PLACE and handed over again (a result that depends on earlier calls or on the identity of the object
+        # is judged as well)
+        with np.errstate(all="ignore"):
+            if isfloat:
+                scaled = np.array(arg, dtype=arg.dtype.newbyteorder("="), order="C", copy=True)
+            elif k >= 0 and max(abs(lo), abs(hi)) * 2.0 ** k < 2.0 ** 62:
+                scaled = arg.astype(np.int64, order="C", copy=True)
+            else:
+                scaled = arg.astype(np.float64, order="C", copy=True)
+            t2 = run_otsu(scaled)
+            if scaled.dtype.kind == "f":
+                np.ldexp(scaled, k, out=scaled)
+            else:
+                scaled *= 2 ** k
         t_sc = run_otsu(scaled)
-        impl = {"threshold": t, "threshold_remove_nan": t_rm, "threshold_scaled": t_sc}
-        # --- Lean: mechanism (NaN-carrying) + brute-force specification on NumPy's histogram
-        rep = ctx.driver.call("c15.hist", hist=[int(v) for v in hist], edges=[core.rat(float(v)) for v in edges])
-        centres = [float(unrat(c)) for c in rep["centres"]]
-        crit = [unrat(c) for c in rep["spec_crit"]]
+        impl = {"threshold": t, "threshold_remove_nan": t_rm, "threshold_scaled": t_sc, "threshold_second_call": t2}
+        # --- Lean: mechanism (NaN-carrying, rescaled centres) + brute-force specification on NumPy's histogram
+        rep = ctx.driver.call("c15.hist", hist=[int(v) for v in hist], edges=[core.rat(float(v)) for v in edges],
+                              edge_bits=[str(core.tok(float(v)) & MASK64) for v in edges], slack=[BUDGET_SLACK, 1])
+        flt = rep["float"]
+        centres_exact = [unrat(c) for c in rep["centres"]]
+        centres = [float(c) for c in centres_exact]
+        crit = [unrat(c) for c in rep["spec_crit"]]      # in units of 4^scale_exp
         best = unrat(rep["spec_best"])
-        du = abs(float(unrat(rep["spec_best_du"])))
-        tol = 1e-9 + 2048 * EPS * max(abs(float(edges[0])), abs(float(edges[-1]))) / du if du > 0 else 1.0
-        near = [j for j, c in enumerate(crit) if c >= best * (1 - Fraction(tol))]
+        du = abs(float(unrat(rep["spec_best_du"])))       # in units of 2^scale_exp
+        # "up to rounding": the cuts whose exact criterion is within the rounding budget of the maximum.  The budget
+        # of a cut is the proved bound on |float criterion - exact criterion| for the code's sequence of binary64
+        # operations (Lean: `float_criterion_within_budget`, evaluated by the driver with u = 2^-53, eta = 2^-1075);
+        # a cut j can win the float argmax only if crit_j + budget_j >= best - budget_best
+        # (`float_argmax_within_budget`).  BUDGET_SLACK (2) allows for implementations that order the same sums and
+        # products differently.  Where the float criterion is not finite (top binade) the old allowance is used.
+        if flt["all_finite"]:
+            near = [int(j) for j in flt["near_budget"]]
+        else:
+            tol = 1e-9 + 2048 * EPS * float(unrat(rep["outer_scaled"])) / du if du > 0 else 1.0
+            near = [j for j, c in enumerate(crit) if c >= best * (1 - Fraction(tol))]
         cls = rep["class_start"]                # first cut of the run of empty bins each cut lies in (Lean: classStart)
         near_classes = sorted({cls[j] for j in near})
         model_t = float(unrat(rep["threshold"]))
         model = {"threshold": model_t, "index": rep["index"], "threshold_remove_nan": model_t,
-                 "threshold_scaled": math.ldexp(model_t, k)}
-        spec = {"best_index": rep["spec_best_index"], "best_criterion": float(best), "cuts_within_rounding": near[:8],
-                "tie_classes_within_rounding": near_classes[:8],
+                 "threshold_scaled": math.ldexp(model_t, k), "threshold_second_call": model_t,
+                 "scale_exp": rep["scale_exp"]}
+        spec = {"best_index": rep["spec_best_index"], "best_criterion(units 4^scale_exp)": float(best),
+                "cuts_within_rounding": near[:8], "tie_classes_within_rounding": near_classes[:8],
                 "centre_of_best": centres[rep["spec_best_index"]], "range": [lo, hi]}
+        # pewlib's own arithmetic on finite data: the sum of two neighbouring edges overflows in the top binade
+        with np.errstate(all="ignore"):
+            centre_sum_overflows = bool(np.any(np.isinf(edges[1:] + edges[:-1])))
+        if centre_sum_overflows:
+            feats.add("top-binade:centre-sum-overflows")
+        note = json.dumps({"centre_sum_overflows": centre_sum_overflows, "max_abs": big_mag >= 2.0 ** 1023})
+        # (e) power-of-two scaling.  The clause can only be met together with "is a bin centre" when NumPy's edges of the
+        # scaled data are the scaled edges (always, short of over/underflow inside np.histogram): judged then
+        with np.errstate(all="ignore"), warnings.catch_warnings():
+            warnings.simplefilter("ignore")
+            try:
+                hist_s, edges_s = np.histogram(scaled, bins=BINS)
+                edges_scale = (np.array_equal(hist_s, hist)
+                               and np.array_equal(np.asarray(edges_s, dtype=np.float64),
+                                                  np.ldexp(np.asarray(edges, dtype=np.float64), k))
+                               and bool(np.all(np.isfinite(edges_s))))
+            except ValueError:
+                edges_scale = False
+                if isinstance(t_sc, dict) and t_sc.get("raises") == "ValueError":
+                    # NumPy cannot bin the scaled data (256 bins below float resolution): nothing to compare
+                    t_sc = impl["threshold_scaled"] = None
+                    model["threshold_scaled"] = None
         if any(isinstance(v, dict) for v in impl.values()):
-            return outcome(impl, model, spec, spec_ok=False, model_ok=False, features=feats | bfeats)
+            return outcome(impl, model, spec, spec_ok=False, model_ok=False, features=feats | bfeats, note=note)
         # (a) one of the 256 centres
         idx = [j for j, c in enumerate(centres) if c == t]
         is_centre = len(idx) >= 1
@@ -437,25 +885,44 @@ class C15(Prop):
         in_range = lo <= t < hi
         # (c) attains the maximum between-class criterion over all cut points, up to rounding
         attains = ki is not None and ki <= BINS - 2 and ki in near
-        impl["criterion_at_returned_cut"] = None if ki is None or ki > BINS - 2 else float(crit[ki])
+        impl["criterion_at_returned_cut(units 4^scale_exp)"] = None if ki is None or ki > BINS - 2 else float(crit[ki])
         # (d) two-valued images are separated
         separates = True
         if distinct.size == 2:
             feats.add("two-valued")
             separates = (not (float(distinct[0]) > t)) and float(distinct[1]) > t
-        # (e) power-of-two scaling, (f) NaN removal
-        scales = t_sc == math.ldexp(t, k)
+        elif distinct.size == 3:
+            feats.add("three-valued")
+        # ... and when rounding a bin centre to a double commutes with the scaling (not so for midpoints of subnormal
+        # edges, or when the scaled centre is subnormal)
+
+        def commutes(c, e):
+            try:
+                return math.ldexp(float(c), e) == float(c * Fraction(2) ** e)
+            except OverflowError:
+                return False
+        centres_scale = all(commutes(c, k) for c in centres_exact)
+        if edges_scale and centres_scale:
+            scales = t_sc == math.ldexp(t, k)
+        else:
+            scales = True
+            feats.add("scaling-not-judged:" + ("numpy-edges-of-scaled-data-are-not-the-scaled-edges" if not edges_scale
+                                               else "rounding-of-a-bin-centre-does-not-commute-with-the-scaling(subnormal)"))
+        # (f) NaN removal; and the second call on the same image
         nan_same = t_rm == t
+        again = t2 == t
         feats.add("scale:2^%+d" % k)
+        if case.get("positional"):
+            feats.add("remove_nan-passed-positionally")
         if has_nan:
             feats.add("with-NaN")
             if math.isnan(float(flat[0])):
                 feats.add("NaN-first")
             if math.isnan(float(flat[-1])):
                 feats.add("NaN-last")
-        spec_ok = is_centre and in_range and attains and separates and scales and nan_same
+        spec_ok = is_centre and in_range and attains and separates and scales and nan_same and again
         impl["checks"] = {"is_centre": is_centre, "in_[min,max)": in_range, "attains_max": attains, "separates": separates,
-                          "scales": scales, "nan_removed_same": nan_same}
+                          "scales": scales, "nan_removed_same": nan_same, "second_call_same": again}
         spec["checks"] = {kk: True for kk in impl["checks"]}
         if int(np.count_nonzero(hist == 0)) > 0:
             feats.add("empty-bins")
@@ -480,9 +947,28 @@ class C15(Prop):
             else:
                 feats.add("extreme-cut:optimum-cuts-off-the-outlier")
         # --- correspondence with the mechanism model.  The histogram comes from data with two distinct values, so
-        # its end bins are occupied (`guard`): no class is empty, no NaN arises, the mechanism is the specification.
+        # its end bins are occupied (`guard`): no class is empty, no NaN arises, the mechanism is the specification;
+        # the rescaling step moves neither the argmax nor the value (`rescaling_keeps_argmax`), the rescaled centres
+        # are below one in magnitude (`scaled_centres_bounded`)
         model_ok = rep["guard"] and rep["first_nan"] is None and rep["mech_is_spec"] and rep["model_index_is_best"]
+        model_ok = (model_ok and rep["unscaled_index"] == rep["index"] and rep["unscaled_threshold"] == rep["threshold"]
+                    and rep["scaled_centres_below_one"] and rep["spec_units_agree"])
         model_ok = model_ok and binning_ok
+        # the float criterion: the budget program's exact components are the specification (`critListB_fst`), every
+        # binary64 entry lies within its budget (an instance of `float_criterion_within_budget`), the rescaling was exact
+        if flt["all_finite"]:
+            feats.add("rounding-budget(relative to the maximum):" + (
+                "<1e-12" if float(unrat(flt["budget_rel_best"])) < 1e-12 else
+                "<1e-9" if float(unrat(flt["budget_rel_best"])) < 1e-9 else
+                "<1e-6" if float(unrat(flt["budget_rel_best"])) < 1e-6 else
+                "<1e-3" if float(unrat(flt["budget_rel_best"])) < 1e-3 else ">=1e-3"))
+            model_ok = model_ok and flt["within_budget"] and flt["budget_exact_is_spec"] and flt["scaled_centres_exact"]
+            model["float_model_index"] = flt["index"]
+            # recorded only: does the binary64 model of the code (same operations in the same order) return the same cut
+            same_cut = ki == flt["index"] and (core.tok(t) & MASK64) == int(flt["threshold_bits"])
+            feats.add("binary64-model:" + ("same-cut-same-bits" if same_cut else "other-cut(recorded only)"))
+        else:
+            feats.add("binary64-criterion-not-finite")
         # Which maximiser.  Cuts in one run of empty bins separate the same two groups: their class sums, hence all
         # float inputs of the criterion, are identical (Lean: `empty_run_ties`), the float criterion is the same number
         # at each of them and np.argmax returns the first.  So when every cut within rounding of the maximum lies in ONE
@@ -524,7 +1010,19 @@ class C15(Prop):
             feats.add("outside-property:NaN-kept->ValueError:" + ("as-modelled" if agrees else "DIFFERS(recorded only)"))
             if JUDGE_OUTSIDE_PROPERTY and not agrees:
                 model_ok = False
-        return outcome(impl, model, spec, spec_ok=spec_ok, model_ok=model_ok, features=feats)
+        return outcome(impl, model, spec, spec_ok=spec_ok, model_ok=model_ok, features=feats, note=note)
+
+    def known(self, case, out):
+        """`C15-top-binade-centres`: data whose larger end is at least 2^1023 in magnitude, where pewlib's
+        `bin_edges[1:] + bin_edges[:-1]` overflows for at least one pair of neighbouring edges (evaluated on the edges
+        NumPy returned for this case).  Nothing else is a known finding."""
+        try:
+            note = json.loads(out.get("note") or "{}")
+        except ValueError:
+            return None
+        if note.get("centre_sum_overflows") and note.get("max_abs"):
+            return KNOWN_TOP_BINADE
+        return None
 
     def check_binning(self, case, flat, clean, isint, hist, edges, ctx):
         """np.histogram(clean, bins=256) against `npHistogram` (Lean `Float` = IEEE binary64): the same counts and
@@ -532,10 +1030,12 @@ class C15(Prop):
         if isint and not np.all(np.abs(flat) <= 2 ** 53):
             return True, {"binning-model-skipped:int-beyond-2^53"}, None
         feats = set()
-        if "rle" in case:
-            # run-length encoded (large) arrays: the model bins every distinct value once, the counts are weighted by
-            # the run lengths; NaN runs are dropped here as `x[~np.isnan(x)]` drops them
-            runs = [(float(v), int(c)) for v, c in case["rle"] if v is not None]
+        if encoded(case) and len(runs_of(case)) > LIMIT:
+            return True, {"binning-model-skipped:large"}, None
+        if encoded(case):
+            # pattern encoded (large) arrays: the model bins the value of every pattern position once, the counts are
+            # weighted by the repetitions; NaNs are dropped here as `x[~np.isnan(x)]` drops them
+            runs = [(float(v), int(c)) for v, c in runs_of(case)]
             drep = ctx.driver.call("c15.data", bits=[str(core.tok(v) & MASK64) for v, _ in runs],
                                    data=[orat(v) for v, _ in runs], counts=[c for _, c in runs], bins=BINS)
             feats.add("binning:run-length-weighted")
@@ -577,7 +1077,10 @@ class C15(Prop):
         note = "fewer than two distinct finite values"
         if clean.size >= 1 and clean.size <= LIMIT and case.get("dtype") != "int":
             t = run_otsu(x, remove_nan=True)
-            hist, edges = np.histogram(clean, bins=BINS)
+            try:
+                hist, edges = np.histogram(clean, bins=BINS)
+            except ValueError:      # a single value so large that 256 bins of total width 1 fall below the float spacing
+                return outcome({}, {}, {}, hyp=False, features=feats, note=note)
             rep = ctx.driver.call("c15.hist", hist=[int(v) for v in hist], edges=[core.rat(float(v)) for v in edges])
             mt = float(unrat(rep["threshold"]))
             agrees = (not isinstance(t, dict)) and t == mt and rep["first_nan"] == rep["index"]
@@ -641,6 +1144,40 @@ class C15(Prop):
                 for i, (v, c) in enumerate(rle):
                     if c > 1:
                         yield mk(rle[:i] + [[v, c // 2]] + rle[i + 1:])
+            if case["scale_exp"] not in (1,):
+                yield {**case, "scale_exp": 1}
+            return
+        if "tiles" in case:
+            tiles = [[list(p), int(r)] for p, r in case["tiles"]]
+            total = lambda ts: sum(len(p) * r for p, r in ts)
+            if len(case["shape"]) > 1:
+                yield {**case, "shape": [total(tiles)]}
+                return
+
+            def mk(ts):
+                out = []
+                for p, r in ts:
+                    if r > 0 and p:
+                        if out and out[-1][0] == p:
+                            out[-1][1] += r          # neighbouring tiles of one pattern are one tile
+                        else:
+                            out.append([p, r])
+                return {**case, "shape": [total(out)], "tiles": out}
+            for i in range(len(tiles)):
+                rest = tiles[:i] + tiles[i + 1:]
+                if total(rest) >= 2:
+                    yield mk(rest)
+            if any(r > 1 for _, r in tiles):
+                yield mk([[p, max(1, r // 2)] for p, r in tiles])
+                for i, (p, r) in enumerate(tiles):
+                    if r > 1:
+                        yield mk(tiles[:i] + [[p, r // 2]] + tiles[i + 1:])
+                        if r <= 8:
+                            yield mk(tiles[:i] + [[p, r - 1]] + tiles[i + 1:])
+            for i, (p, r) in enumerate(tiles):
+                if len(p) > 1:
+                    yield mk(tiles[:i] + [[p[:len(p) // 2], r]] + tiles[i + 1:])
+                    yield mk(tiles[:i] + [[p[len(p) // 2:], r]] + tiles[i + 1:])
             if case["scale_exp"] not in (1,):
                 yield {**case, "scale_exp": 1}
             return
